@@ -45,4 +45,23 @@ theorem orderDoc_rel : DocRel (orderDoc false) (orderDoc true) :=
 example : fires .overlappingFieldsCanBeMerged exSchema (orderDoc false) ∧ fires .overlappingFieldsCanBeMerged exSchema (orderDoc true) := by
   constructor <;> decide +kernel
 
+theorem orderDoc_ao : AODoc (orderDoc false) := by
+  intro x hx
+  simp only [orderDoc, q, frag, fld, spr, List.mem_cons, List.not_mem_nil, or_false] at hx
+  rcases hx with rfl | rfl | rfl | rfl | rfl <;> simp [Definition.selections, aoSels, aoSel]
+
+theorem orderDoc_tc : TcKnown exSchema (orderDoc false) := by
+  unfold TcKnown
+  decide
+
+theorem orderDoc_acyclic : ¬ FragmentCycle (orderDoc false) := by
+  intro h
+  have hn : ((orderDoc false).fragments.map (·.name)).Nodup := by decide
+  have hf := (C06.noFragmentsCycle_iff exSchema (orderDoc false) (by decide) hn).2 h
+  exact absurd hf (by decide +kernel)
+
+/-- all hypotheses of `merge_order_independent` hold of the pair of documents of the repaired order dependence -/
+example : fires .overlappingFieldsCanBeMerged exSchema (orderDoc false) ↔ fires .overlappingFieldsCanBeMerged exSchema (orderDoc true) :=
+  merge_order_independent exSchema (by decide) orderDoc_rel orderDoc_ao orderDoc_tc orderDoc_acyclic
+
 end Gql.C05
